@@ -11,7 +11,7 @@ EXTENDS Integers, Sequences
 
 FnArity == [one |-> 0, two |-> 0,
             id |-> 1, neg |-> 1, dbl |-> 1, inc |-> 1, step |-> 1, pos |-> 1, dsum |-> 1, loopinc |-> 1, dflt |-> 1,
-            add |-> 2, sub |-> 2, mul |-> 2, sel |-> 2, cut |-> 2, cap |-> 2, swp |-> 2,
+            add |-> 2, sub |-> 2, mul |-> 2, sel |-> 2, cut |-> 2, cap |-> 2, swp |-> 2, kwo |-> 2,
             mad |-> 3]
 
 FApply(fn, a) ==
@@ -33,12 +33,13 @@ FApply(fn, a) ==
       [] fn = "cut"  -> IF a[1] > a[2] THEN a[1] - a[2] ELSE a[1]   \* Python twin: local re-bound inside a one-sided if
       [] fn = "cap"  -> IF a[1] < a[2] THEN a[1] ELSE a[2]          \* Python twin: np.minimum (a KNOWN_FNS row)
       [] fn = "swp"  -> 2 * a[2] - a[1]                               \* Python twin: tuple swap, then 2*first - second
+      [] fn = "kwo"  -> 3 * a[1] + a[2]        \* Python twin: helper called with a keyword AFTER a skipped default (_aff(x, off=y), k = 3)
       [] fn = "mad"  -> a[1] * a[2] + a[3]
 
 \* functions whose Python twin no translator (symbolic, code generators, SBML) can represent
 Untranslatable == {"loopinc", "dsum"}
 \* functions a translator may either refuse or translate correctly (never translate wrongly)
-MaybeTranslatable == {"dflt", "cap"}
+MaybeTranslatable == {"dflt", "cap", "kwo"}
 
 FAdd(a, b) == a + b
 FMul(a, b) == a * b
